@@ -1,6 +1,7 @@
 package main
 
 import (
+	"strconv"
 	"fmt"
 	"math"
 	"strings"
@@ -101,8 +102,14 @@ func execC13Float(fn int, r *R) []int64 {
 		a, b := c13F(r.Int()), c13F(r.Int())
 		return []int64{b2i(gogu.Equal(a, b))}
 	case 65, 66:
-		args := c13Fs(r.Ints())
-		var l []float64
+		// the float64 instance of Range is a NAMED float64 with a String method (a unit type): the
+		// two-decimal rounding of the terms must not depend on the type being the built-in one
+		raw := c13Fs(r.Ints())
+		args := make([]c13Meters, len(raw))
+		for i, x := range raw {
+			args[i] = c13Meters(x)
+		}
+		var l []c13Meters
 		var err error
 		if fn == 65 {
 			l, err = gogu.Range(args...)
@@ -114,7 +121,7 @@ func execC13Float(fn int, r *R) []int64 {
 		}
 		out := []int64{0, int64(len(l))}
 		for _, x := range l {
-			out = append(out, c13FBits(x))
+			out = append(out, c13FBits(float64(x)))
 		}
 		return out
 	case 67, 68:
@@ -201,6 +208,11 @@ func c13FInts(fs []float64) []int {
 // (NaN comes third: every "first k values" sub-alphabet below must contain it)
 var c13FSpecial = []float64{math.Copysign(0, -1), 0, math.NaN(), 1, -1, 0.1, 0.2, 0.3, 1e308, -1e308, 5e-324, math.Inf(1), math.Inf(-1),
 	1 << 53, 1<<53 + 2, 0.5, 1.5, -5e-324, math.MaxFloat64, 0x1p-1022}
+
+// c13Meters: a float64 with a String method, as unit types have
+type c13Meters float64
+
+func (m c13Meters) String() string { return "about " + strconv.Itoa(int(m)) + " m" }
 
 func genC13Float(g *Gen, emit func(stream string, nt bool, w *W)) {
 	sp := c13FSpecial
